@@ -843,6 +843,22 @@ class Terms(object):
                     parts.extend(t[1:])
                 else:
                     parts.append(t)
+            if self.hyps:
+                # conjuncts / disjuncts decided by the hypotheses
+                kept = []
+                for t in parts:
+                    d = self._decided(t[1] if t[0] == "not" else t)
+                    if d is not None and t[0] == "not":
+                        d = not d
+                    if d is None:
+                        kept.append(t)
+                    elif d != (kind == "and"):
+                        return ("const", d)
+                if not kept:
+                    return ("const", kind == "and")
+                parts = kept
+                if len(parts) == 1:
+                    return parts[0]
             return (kind,) + tuple(parts)
         if isinstance(e, ast.Compare):
             items = []
@@ -1147,6 +1163,49 @@ def owner_terms(T, construct):
     if owner is T.fn:
         return T
     return T.inner(owner)
+
+
+def truth_paths(T, fn=None):
+    """The ways the function can return a true value: one set of canonical
+    facts {(term, polarity)} per (return statement, incoming path) whose value
+    is not constantly false - the dominating branch conditions plus what the
+    returned expression itself requires.  Hypotheses of T are left out."""
+    fn = fn or T.fn
+    hyp = set((h, bool(v)) for h, v in T.hyps)
+    out = []
+    for r in ast.walk(fn):
+        if not isinstance(r, ast.Return) or not _owner(r, fn) or \
+                r.value is None:
+            continue
+        n = T.cfg.node_of(r)
+        if not T.live(n):
+            continue
+        v, pol = T.cond(r.value, n, True)
+        if v in (("const", False), ("const", None)) and pol:
+            continue
+        if v == ("const", True) and not pol:
+            continue
+        extra = [] if v[0] == "const" else split_cond(v, pol)
+        for ent, facts in T.facts_by_path(n):
+            fs = set()
+            for t, p in list(facts) + extra:
+                for a in split_cond(t, p):
+                    if a not in hyp:
+                        fs.add(a)
+            out.append(frozenset(fs))
+    return out
+
+
+def yields(T, fn=None):
+    """[(node, value term, facts)] for every yield directly in the
+    function."""
+    fn = fn or T.fn
+    out = []
+    for y in ast.walk(fn):
+        if isinstance(y, ast.Yield) and _owner(y, fn) and y.value is not None:
+            n = T.cfg.node_containing(y)
+            out.append((n, T.term(y.value, n), T.all_facts(n)))
+    return out
 
 
 def stores(T, fn=None):
